@@ -622,6 +622,32 @@ func (e *SpecEnv) call(x ECall) SVal {
 		i := e.value(e.eval(x.Args[1]))
 		v := e.value(e.eval(x.Args[2]))
 		return SVal{T: Store(a.T, i.T, v.T)}
+	case "app", "app1", "apppanics": // callback application model (see callbackCall)
+		fv := e.value(e.eval(x.Args[0]))
+		sig, ok := fv.Go.Underlying().(*types.Signature)
+		if fv.Go == nil || !ok {
+			sfail("%s(): first argument must be a function-typed parameter", x.Fun)
+		}
+		args := []Term{fv.T}
+		sorts := []string{"Int"}
+		for _, a := range x.Args[1:] {
+			v := e.value(e.eval(a))
+			args = append(args, v.T)
+			sorts = append(sorts, string(v.T.Sort))
+		}
+		if x.Fun == "apppanics" {
+			return SVal{T: App(e.W.AppFun("apppanics", sorts, SBool, 0), SBool, args...), Go: boolT}
+		}
+		idx := 0
+		if x.Fun == "app1" {
+			idx = 1
+		}
+		if idx >= sig.Results().Len() {
+			sfail("%s(): callback has no result %d", x.Fun, idx)
+		}
+		rt := sig.Results().At(idx).Type()
+		so := e.W.Sorts.SortOf(rt)
+		return SVal{T: App(e.W.AppFun("app", sorts, so, idx), so, args...), Go: rt}
 	case "mem": // mem(s): the backing array of slice s as a spec array
 		v := e.value(e.eval(x.Args[0]))
 		st, ok := v.Go.Underlying().(*types.Slice)
@@ -696,6 +722,8 @@ type specInfo struct {
 	reads    []compRef
 	deps     map[string]bool
 	text     []string // SMT definition lines (declare/define + axioms)
+	bodyText string   // body of a macro-defined function
+	formalNames []string
 	declOnly string   // declare-fun line for recursive functions
 }
 
@@ -860,6 +888,8 @@ func (w *World) ProcessSpecs() error {
 			}
 		} else {
 			si.text = []string{fmt.Sprintf("(define-fun sf!%s (%s) %s %s)", name, strings.Join(formals, " "), si.result, body.T.S)}
+			si.bodyText = body.T.S
+			si.formalNames = callArgs
 		}
 	}
 	// non-recursive functions must not form cycles
